@@ -76,7 +76,8 @@ def step (st : St) (ws : List String) : St × String :=
               hexOfBytes (writeMessageStreaming h q b)])
       | _, _ => (st, idx ++ " bad-op")
     | _, _ => (st, idx ++ " bad-op")
-  | ["build", idx, id, notify, ec, qf, bf, q, b] =>
+  | "build" :: idx :: id :: notify :: ec :: qf :: bf :: q :: b :: _order =>
+    -- optional 10th token: order / choice of the builder's setters (the frame is a function of the seven values)
     match bytesOfHex q, bytesOfHex b with
     | some q, some b =>
       let m := (Builder.mk (natOf id) (notify = "1") (natOf ec) (natOf qf) (natOf bf) q b).build
@@ -97,17 +98,21 @@ def step (st : St) (ws : List String) : St × String :=
     | _, _ => (st, idx ++ " bad-op")
   | ["errmsg", idx, code, msg] =>
     match bytesOfHex msg with
-    | some msg => (st, joinSp [idx, hexOfBytes (createErrorMessage (natOf code) msg).toVec])
+    | some msg => (st, joinSp [idx, hexOfBytes (wireErrorMessage (natOf code) msg).toVec])
     | none => (st, idx ++ " bad-op")
   | ["errlike", idx, reqId, reqQ, code, msg] =>
     match bytesOfHex reqQ, bytesOfHex msg with
     | some q, some msg => (st, joinSp [idx, hexOfBytes (createErrorResponseLike (natOf reqId) q (natOf code) msg).toVec])
     | _, _ => (st, idx ++ " bad-op")
-  | ["resp", idx, reqId, reqQf, reqQ, bf, body] =>
+  | "resp" :: idx :: reqId :: reqQf :: reqQ :: bf :: body :: _value =>
     match bytesOfHex reqQ, bytesOfHex body with
     | some q, some body =>
       (st, joinSp [idx, hexOfBytes (createResponse (natOf reqId) (natOf reqQf) q (natOf bf) body).toVec])
     | _, _ => (st, idx ++ " bad-op")
+  | "cb" :: idx :: _ =>
+    -- body callbacks that err / panic / are slow / re-enter: the property is silent about failing callbacks; the
+    -- harness asserts the slow and re-entrant ones directly
+    (st, idx ++ " ran")
   | "twin" :: idx :: _ =>
     -- documented twins compared by the harness (typed/complex slice writers vs builder + write_message)
     (st, idx ++ " =")
@@ -124,7 +129,7 @@ def step (st : St) (ws : List String) : St × String :=
     match reader, streams.mapM bytesOfHex with
     | some rd, some ss => (st, idx ++ " " ++ " | ".intercalate (ss.map (readAll rd)))
     | _, _ => (st, idx ++ " bad-op")
-  | ["net", idx, _ep, _h] =>
+  | "net" :: idx :: _ep :: _h :: _pre =>
     -- hostile bytes against a real endpoint: the model's prediction is C02's totality — the endpoint survives
     (st, idx ++ " survived")
   | ["hdr", idx, h] =>
